@@ -164,6 +164,17 @@ def run(ctx):
         def rl():
             return [opts(rng.choice(pool), rng.choice([1, 1, 2]), rng.choice(sweeps)) for _ in range(rng.choice([1, 2, 3]))]
         configs.append((rl(), rl()))
+    # directed per-level lists: the shorter list is extended by its last entry; deeper entries of the longer list
+    # agree with it except for ONE attribute (iterations, sweep, method) -- each list-length branch, both directions
+    for m in ('jacobi', 'richardson', 'gauss_seidel', 'sor', 'block_gauss_seidel', 'chebyshev'):
+        for it_a, it_b, sw_b in ((1, 2, 'symmetric'), (2, 1, 'symmetric'), (1, 1, 'forward'), (1, 1, 'symmetric'), (2, 2, 'symmetric')):
+            short = [opts(m, it_a, 'symmetric')]
+            for depth in (2, 3):
+                long_ = [opts(m, it_a, 'symmetric')] * (depth - 1) + [opts(m, it_b, sw_b)]
+                configs.append((short, long_))
+                configs.append((long_, short))
+        configs.append(([opts(m, 1, 'symmetric')], [opts(m, 1, 'symmetric'), opts('jacobi' if m != 'jacobi' else 'richardson', 1)]))
+        configs.append(([opts(m, 1, 'symmetric'), opts('jacobi' if m != 'jacobi' else 'richardson', 1)], [opts(m, 1, 'symmetric')]))
     if not (ctx.thorough or ctx.search):
         head = configs[:]
         rng.shuffle(head)
